@@ -139,7 +139,9 @@ def check(ctx):
     #     Two generators: the full vocabulary, and the data-flow slice explored one line deeper.
     flow_depth = 3 if quick else 4
     gens = [("main", gen_cfg(depth_main, depth_aux, "all"), NCPU if not quick else max(4, NCPU - 4)),
-            ("flow", gen_cfg(flow_depth, 0, "all", slices='{"flow"}'), 4 if quick else 6)]
+            ("flow", gen_cfg(flow_depth, 0, "all", slices='{"flow"}'), 4 if quick else 6),
+            # three background commands alive at once: 8 lines, 5 (6) deep
+            ("bg3", gen_cfg(5 if quick else 6, 0, "all", slices='{"bg3"}'), 2)]
     results, errors = {}, []
 
     def run_gen(name, cfg_text, workers):
@@ -168,9 +170,9 @@ def check(ctx):
         if n_emitted[name] != res.generated:
             raise NoVerdict("TLC emitted %d cases for %d generated states (%s)" % (n_emitted[name], res.generated, name))
         gen_info[name] = dict(states=res.distinct, transitions=res.generated)
-    log("[%5.1fs] TLC: laws hold in %d + %d states; %d + %d scripts emitted (full vocabulary depth %d/%d, data-flow slice depth %d)"
-        % (time.time() - ctx.t0, gen_info["main"]["states"], gen_info["flow"]["states"], n_emitted["main"], n_emitted["flow"],
-           depth_main, depth_aux, flow_depth))
+    log("[%5.1fs] TLC: laws hold in %d + %d + %d states; %d + %d + %d scripts emitted (full vocabulary depth %d/%d, data-flow slice depth %d, three-background slice)"
+        % (time.time() - ctx.t0, gen_info["main"]["states"], gen_info["flow"]["states"], gen_info["bg3"]["states"], n_emitted["main"], n_emitted["flow"],
+           n_emitted["bg3"], depth_main, depth_aux, flow_depth))
     header = header_of(results["main"][1])
 
     violations, drift, samples, counters = [], [], [], {}
